@@ -169,9 +169,67 @@ fn ident_check_coarse(c: &SeqCase) -> Result<(), String> {
     Ok(())
 }
 
+/// the owning / borrowing wrappers accepted by the text entry points (String, Cow, Vec<u8>) give the
+/// diff of the text they hold
+fn wrapper_inputs(c: &TextCase) -> Result<(), String> {
+    use std::borrow::Cow;
+    let cfg = config(c.alg);
+    let tok = c.tok % 5;
+    if let (Some(o), Some(n)) = (c.old.as_str(), c.new.as_str()) {
+        let want = diff_str(&cfg, tok, o, n).ops().to_vec();
+        let (so, sn) = (o.to_string(), n.to_string());
+        let (co, cn): (Cow<str>, Cow<str>) = (Cow::Borrowed(o), Cow::Owned(n.to_string()));
+        let got_s = match tok {
+            0 => cfg.diff_lines(&so, &sn).ops().to_vec(),
+            1 => cfg.diff_words(&so, &sn).ops().to_vec(),
+            2 => cfg.diff_chars(&so, &sn).ops().to_vec(),
+            3 => cfg.diff_unicode_words(&so, &sn).ops().to_vec(),
+            _ => cfg.diff_graphemes(&so, &sn).ops().to_vec(),
+        };
+        let got_c = match tok {
+            0 => cfg.diff_lines(&co, &cn).ops().to_vec(),
+            1 => cfg.diff_words(&co, &cn).ops().to_vec(),
+            2 => cfg.diff_chars(&co, &cn).ops().to_vec(),
+            3 => cfg.diff_unicode_words(&co, &cn).ops().to_vec(),
+            _ => cfg.diff_graphemes(&co, &cn).ops().to_vec(),
+        };
+        if got_s != want || got_c != want {
+            return Err(format!("diffing String / Cow<str> inputs gives {:?} / {:?}, the &str inputs give {:?}", got_s, got_c, want));
+        }
+    }
+    let want = diff_bytes(&cfg, tok, &c.old.0, &c.new.0).ops().to_vec();
+    let (vo, vn) = (c.old.0.clone(), c.new.0.clone());
+    let (co, cn): (Cow<[u8]>, Cow<[u8]>) = (Cow::Owned(c.old.0.clone()), Cow::Borrowed(&c.new.0[..]));
+    let got_v = match tok {
+        0 => cfg.diff_lines(&vo, &vn).ops().to_vec(),
+        1 => cfg.diff_words(&vo, &vn).ops().to_vec(),
+        2 => cfg.diff_chars(&vo, &vn).ops().to_vec(),
+        3 => cfg.diff_unicode_words(&vo, &vn).ops().to_vec(),
+        _ => cfg.diff_graphemes(&vo, &vn).ops().to_vec(),
+    };
+    let got_c = match tok {
+        0 => cfg.diff_lines(&co, &cn).ops().to_vec(),
+        1 => cfg.diff_words(&co, &cn).ops().to_vec(),
+        2 => cfg.diff_chars(&co, &cn).ops().to_vec(),
+        3 => cfg.diff_unicode_words(&co, &cn).ops().to_vec(),
+        _ => cfg.diff_graphemes(&co, &cn).ops().to_vec(),
+    };
+    if got_v != want || got_c != want {
+        return Err(format!("diffing Vec<u8> / Cow<[u8]> inputs gives {:?} / {:?}, the &[u8] inputs give {:?}", got_v, got_c, want));
+    }
+    Ok(())
+}
+
 fn check(case: &Case, obs: &mut Obs) -> Verdict {
     match case {
         Case::Text { case: c, nt } => {
+            if c.old.0.len() + c.new.0.len() <= 400 {
+                match guard(|| wrapper_inputs(c)) {
+                    Ok(Ok(())) => {}
+                    Ok(Err(m)) => return Verdict::Fail(format!("{} {}: {}", alg_name(c.alg), TOKENIZERS[(c.tok % 5) as usize], m)),
+                    Err(p) => return Verdict::Fail(format!("text diff over String/Cow/Vec inputs: {}", p)),
+                }
+            }
             obs.class(TOKENIZERS[(c.tok % 5) as usize]);
             obs.class(alg_name(c.alg));
             let r = if c.use_bytes() { guard(|| judge_text(c, *nt, &c.old.0[..], &c.new.0[..], obs)) } else { guard(|| judge_text(c, *nt, c.old.as_str().unwrap(), c.new.as_str().unwrap(), obs)) };
@@ -301,7 +359,7 @@ impl Prop for C14 {
     type Case = Case;
     const ID: &'static str = "C14";
     fn rule() -> String {
-        "cases = Text(old, new, tokenizer, algorithm, str | [u8], newline_terminated override in {unset,true,false}) with item counts per side drawn from {0,1,2,50,51,99,100,101,102,150,200/300} (all four <=100 / >100 quadrants, and exactly 100/101 tokens), new related to old by in-place edits or independent, plus the shared text mixture | Ident(sequence pair, non-zero range offsets, integer type in {u16,u32,u64,usize, u8 only when <= 255 distinct items}). Oracle: TextDiff::ops == capture_diff_slices(alg, tokenizer(old), tokenizer(new)); the stored token slices are the tokenizer output; algorithm() == configured; newline_terminated() == override else (tokenizer == lines); TextDiffConfig::diff_slices likewise. IdentifyDistinct: ids equal <=> items equal within and across sides, old_range()/new_range() == the caller's, lookups indexed with the caller's indices. Non-trivial = a side has more than 100 tokens and the texts differ (Text) / non-zero offset with >= 2 distinct items (Ident); distinct = distinct serialized case.".into()
+        "cases = Text(old, new, tokenizer, algorithm, str | [u8], newline_terminated override in {unset,true,false}) with item counts per side drawn from {0,1,2,50,51,99,100,101,102,150,200/300} (all four <=100 / >100 quadrants, and exactly 100/101 tokens), new related to old by in-place edits or independent, plus the shared text mixture | Ident(sequence pair, non-zero range offsets, integer type in {u16,u32,u64,usize, u8 only when <= 255 distinct items}). Oracle: TextDiff::ops == capture_diff_slices(alg, tokenizer(old), tokenizer(new)); the stored token slices are the tokenizer output; algorithm() == configured; newline_terminated() == override else (tokenizer == lines); TextDiffConfig::diff_slices likewise; String / Cow<str> / Vec<u8> / Cow<[u8]> inputs give the ops of the borrowed text (texts up to 400 bytes). IdentifyDistinct: ids equal <=> items equal within and across sides, old_range()/new_range() == the caller's, lookups indexed with the caller's indices. Non-trivial = a side has more than 100 tokens and the texts differ (Text) / non-zero offset with >= 2 distinct items (Ident); distinct = distinct serialized case.".into()
     }
     fn assumptions() -> Vec<String> {
         vec!["LCS inputs capped at 160 items".into()]
